@@ -64,6 +64,8 @@ def posLe (a b : String) : Bool :=
 
 def floatOps : Ops Float where
   nameLe := posLe
+  lt := fun a b => a < b
+  le := fun a b => a ≤ b
   bin := fun op a b => match op with
     | .add => a + b
     | .sub => a - b
